@@ -777,6 +777,14 @@ def sib(ctx):
             ok = ea == es and fa == fs
             out.append(Obl('SIB-SEM', '%s|%s::node::Node::%s' % (a, s, b['name']), sb['span'], 'same error set and list footprint', ok,
                            'errors %s / %s, footprint %s / %s' % (sorted(ea), sorted(es), sorted(fa), sorted(fs))))
+            # ... and per failing callee the same errors surface (propagating a helper's error and replacing it by a constant are the
+            # same thing only as long as the helper has no other error)
+            from .rules_edge import error_profile
+            pa_, ps_ = error_profile(ctx, b), error_profile(ctx, sb)
+            if pa_ or ps_:
+                okp = {k: sorted(v) for k, v in pa_.items()} == {k: sorted(v) for k, v in ps_.items()}
+                out.append(Obl('SIB-SEM', '%s|%s::node::Node::%s' % (a, s, b['name']), sb['span'], 'a failing helper surfaces as the same error in both flavours', okp,
+                               'both: %s' % {k: sorted(v) for k, v in pa_.items()} if okp else 'plain %s vs sync %s' % ({k: sorted(v) for k, v in pa_.items()}, {k: sorted(v) for k, v in ps_.items()})))
     # effect sequences of the node operations: which half is touched at which endpoint, in which order
     from .effects import node_events
     for a, s_ in SIB.items():
